@@ -272,7 +272,8 @@ Proof.
   destruct p; try (unfold resume; rewrite (ph_wf_running _ _ _ P) by discriminate; split; [exact G|eexists; exact P]).
   destruct G as (G1 & G2 & G3 & G4). cbn [Ph] in P.
   destruct P as (A & B & C & D & E & F & Gw & H & [I|(I & Pz)] & J); open s; subst.
-  - split; [repeat split; assumption|]. exists PIdle. cbn. repeat split; auto.
+  - unfold resume. cbn [s_wf is_paused state_eqb].
+    split; [split; [|split; [|split]]; fields; assumption|]. exists PIdle. cbn. repeat split; auto.
   - unfold resume. cbn. split.
     + split; [|split; [|split]]; fields.
       * intros h [].
@@ -282,3 +283,320 @@ Proof.
     + exists PRun. cbn. repeat split; auto; try lia; try apply allgo_nil; try congruence.
       exists [], now_. repeat split; auto.
 Qed.
+
+Lemma act_noop n i x co br s : Forall done_act (s_acts s) -> act_done_n n i x co br s = s.
+Proof.
+  intros F. unfold act_done_n. destruct (nth_error (s_acts s) i) as [a|] eqn:E; [|reflexivity].
+  rewrite (done_not_running a (Forall_nth _ _ _ _ F E)). reflexivity.
+Qed.
+
+(* the action rows of l' are those of l up to state / accepted flag (same start times) *)
+Definition start_pres (l l' : list act) : Prop :=
+  length l' = length l /\ forall i a', nth_error l' i = Some a' -> exists a, nth_error l i = Some a /\ a_start a = a_start a'.
+
+Lemma start_pres_snoc dn a a' : a_start a = a_start a' -> start_pres (dn ++ [a]) (dn ++ [a']).
+Proof.
+  intros E. split; [rewrite !app_length; reflexivity|].
+  intros i b H. apply nth_error_snoc in H. destruct H as [(H & L)|(-> & ->)].
+  - exists b. split; [rewrite nth_error_app1 by exact L; exact H|reflexivity].
+  - exists a. split; [|exact E]. rewrite nth_error_app2 by lia. rewrite Nat.sub_diag. reflexivity.
+Qed.
+
+Lemma start_pres_map l (f : act -> act) : (forall a, a_start (f a) = a_start a) -> start_pres l (map f l).
+Proof.
+  intros E. split; [apply map_length|].
+  intros i b H. rewrite nth_error_map in H. destruct (nth_error l i) as [a|]; [|discriminate].
+  inversion H; subst. exists a. split; [reflexivity|]. symmetry. apply E.
+Qed.
+
+Lemma start_pres_trans l1 l2 l3 : start_pres l1 l2 -> start_pres l2 l3 -> start_pres l1 l3.
+Proof.
+  intros (L1 & H1) (L2 & H2). split; [congruence|].
+  intros i c Hc. destruct (H2 i c Hc) as (b & Hb & Eb). destruct (H1 i b Hb) as (a & Ha & Ea).
+  exists a. split; [exact Ha|congruence].
+Qed.
+
+(* Glob after an attempt's result was recorded (history grows by h, action rows keep their start times) *)
+Lemma glob_after_act n s s' h :
+  Glob n s ->
+  length (s_acts s) = S (length (s_hist s)) ->
+  s_hist s' = s_hist s ++ [h] -> h_time h = s_now s -> result_state (h_res h) = true ->
+  s_now s' = s_now s -> s_early s' = s_early s -> s_t0 s' = s_t0 s ->
+  start_pres (s_acts s) (s_acts s') ->
+  (forall t x, In (t, x) (s_disp s') -> s_early s = false ->
+     forall h0, nth_error (s_hist s') 0 = Some h0 -> h_time h0 + n_wa n <= t) ->
+  Glob n s'.
+Proof.
+  intros (G1 & G2 & G3 & G4) L Hh Ht Hr Hn He H0 (SL & SP) Hd.
+  split; [|split; [|split]].
+  - intros h' Hin. rewrite Hh in Hin. apply in_app_iff in Hin. rewrite Hn.
+    destruct Hin as [Hin|[<-|[]]]; [apply G1, Hin|]. split; [lia|exact Hr].
+  - rewrite He. intros Ee k a h' Ha Hk. rewrite Hh in Hk.
+    apply nth_error_snoc in Hk. destruct Hk as [(Hk & Lt)|(-> & ->)].
+    + destruct (SP _ _ Ha) as (a0 & Ha0 & Es). rewrite <- Es. exact (G2 Ee k a0 h' Ha0 Hk).
+    + exfalso. assert (nth_error (s_acts s') (S (length (s_hist s))) = None) as Hn'
+        by (apply nth_error_None; lia). congruence.
+  - rewrite He, H0. intros Ee Pz a t0 Ha Ht0.
+    destruct (SP _ _ Ha) as (a0 & Ha0 & Es). rewrite <- Es. exact (G3 Ee Pz a0 t0 Ha0 Ht0).
+  - rewrite He. intros Ee t x h0 Hin Hh0. exact (Hd t x Hin Ee h0 Hh0).
+Qed.
+
+Lemma rnoN_rno_of s l : s_rno s = rno_of l -> rnoN s = N.of_nat (length l).
+Proof. unfold rnoN. intros ->. destruct l; reflexivity. Qed.
+
+Lemma result_not_delayed x : result_state x = true -> state_eqb x RUNNING_DELAYED = false.
+Proof. destruct x; vm_compute; congruence. Qed.
+
+Lemma inv_act n i x co br s : Inv n s -> Inv n (act_done_n n i x co br s).
+Proof.
+  intros (G & p & P).
+  destruct p.
+  - rewrite act_noop; [split; [exact G|eexists; exact P]|]. cbn in P. destruct P as (_ & -> & _). constructor.
+  - rewrite act_noop; [split; [exact G|eexists; exact P]|]. cbn in P. destruct P as (_ & -> & _). constructor.
+  - (* an attempt is running *)
+    pose proof P as P0.
+    cbn [Ph] in P. destruct P as (A & B & C & D & E & F & Ga & H & I & J & dn & t & Hacts & Ldn & Fdn).
+    unfold act_done_n. rewrite Hacts.
+    destruct (nth_error (dn ++ [mkAct RUNNING false t]) i) as [a|] eqn:En;
+      [|split; [exact G|exists PRun; exact P0]].
+    apply nth_error_snoc in En. destruct En as [(En & Lt)|(-> & ->)].
+    { rewrite (done_not_running a (Forall_nth _ _ _ _ Fdn En)). cbn [andb].
+      split; [exact G|exists PRun; exact P0]. }
+    cbn [a_state state_eqb andb a_start]. destruct (result_state x) eqn:Rx;
+      [|split; [exact G|exists PRun; exact P0]].
+    rewrite upd_nth_snoc.
+    set (h := mkH (s_now s) x co br).
+    set (inf := if state_eqb x SUCCESS then INone else IAction).
+    set (s2 := set_hist _ _).
+    assert (Rn : rnoN s2 = N.of_nat (length (s_hist s))) by (apply (rnoN_rno_of s); exact E).
+    assert (C2 : is_completed (s_state s2) = false) by (unfold s2; fields; rewrite A; reflexivity).
+    assert (SPa : start_pres (s_acts s) (dn ++ [mkAct x true t])) by (rewrite Hacts; apply start_pres_snoc; reflexivity).
+    assert (La : length (s_acts s) = S (length (s_hist s))) by (rewrite Hacts, app_length; cbn; lia).
+    assert (Hwa : (n_wa n = 0 \/ s_waskip s = true) -> s_early s = false ->
+                  forall h0, nth_error (s_hist s ++ [h]) 0 = Some h0 -> h_time h0 + n_wa n <= s_now s).
+    { intros Wc Ee h0 H0. destruct (s_hist s) as [|h1 tl] eqn:Eh.
+      - cbn in H0. inversion H0; subst h0. cbn [h h_time].
+        destruct Wc as [Wc|Wc]; [lia|]. rewrite (H eq_refl) in Wc. discriminate.
+      - cbn in H0. inversion H0; subst h0. apply (J Ee). reflexivity. }
+    destruct (complete_case n x inf s2 C2 Rx) as [(Wa & Ws & Eq)|[(Wc & Dc & i' & Eq)|(Wc & Dc & i' & Eq)]];
+      cbv zeta in Eq; rewrite Eq; clear Eq; unfold s2 in *; clear s2; fields.
+    + (* wait-after delays the first completion *)
+      assert (Eh : s_hist s = []).
+      { destruct (s_hist s) as [|h1 tl] eqn:Eh; [reflexivity|]. exfalso.
+        assert (s_waskip s = true) as K by (apply I; [congruence|exact Wa]).
+        congruence. }
+      assert (dn = []) as -> by (destruct dn; [reflexivity|rewrite Eh in Ldn; discriminate]).
+      split.
+      * eapply (glob_after_act n s _ h G La); fields; try reflexivity; try exact Rx.
+        -- exact SPa.
+        -- rewrite C. intros t' x' [].
+      * exists PWa. cbn [Ph]. fields. rewrite Eh. repeat split; auto; try (rewrite E, Eh; reflexivity).
+        exists h, (mkAct x true t), inf. repeat split; auto; try exact Rx; try (rewrite B; reflexivity).
+    + (* the retry policy schedules another attempt *)
+      rewrite Rn in Dc.
+      pose proof (retry_decide_remain _ _ _ _ _ _ _ Dc) as Rem.
+      split.
+      * eapply (glob_after_act n s _ h G La); fields; try reflexivity; try exact Rx.
+        -- eapply start_pres_trans; [exact SPa|]. apply start_pres_map. reflexivity.
+        -- rewrite C. intros t' x' [].
+      * exists PRt. cbn [Ph]. fields. rewrite app_length, map_length, app_length. cbn [length].
+        repeat split; auto; try lia.
+        -- rewrite Forall_map. apply Forall_app. split; [|repeat constructor; exact Rx].
+           eapply Forall_impl; [|exact Fdn]. intros a Ha. exact Ha.
+        -- destruct (s_hist s); discriminate.
+        -- rewrite Rn. f_equal. lia.
+        -- apply allgo_snoc; [exact Ga|exact Dc].
+        -- rewrite B. eexists. split; [reflexivity|]. intros hs h' Hs. apply app_inj_tail in Hs. destruct Hs as (_ & <-).
+           cbn [h_time]. lia.
+    + (* final *)
+      rewrite Rn in Dc.
+      unfold dispatch. fields. rewrite D. cbn [is_paused state_eqb]. fields. rewrite C.
+      split.
+      * eapply (glob_after_act n s _ h G La); fields; try reflexivity; try exact Rx.
+        -- exact SPa.
+        -- intros t' x' [Hin|[]] Ee h0 H0. inversion Hin; subst t'. apply Hwa; auto.
+      * exists PFin. cbn [Ph]. fields. rewrite !app_length. cbn [length].
+        repeat split; auto; try lia.
+        -- apply result_completed, eff_result, Rx.
+        -- apply Forall_app. split; [exact Fdn|repeat constructor; exact Rx].
+        -- exists (s_hist s), h, (s_now s). repeat split; auto.
+  - rewrite act_noop; [split; [exact G|eexists; exact P]|]. cbn in P.
+    destruct P as (_ & _ & _ & _ & _ & _ & h & a & i0 & _ & -> & Da & _). repeat constructor. exact Da.
+  - rewrite act_noop; [split; [exact G|eexists; exact P]|]. cbn in P. tauto.
+  - rewrite act_noop; [split; [exact G|eexists; exact P]|]. cbn in P. tauto.
+Qed.
+
+Lemma glob_keep n s s' :
+  Glob n s -> s_hist s' = s_hist s -> s_now s' = s_now s -> s_t0 s' = s_t0 s ->
+  (s_early s' = false -> s_early s = false) -> start_pres (s_acts s) (s_acts s') ->
+  (forall t x, In (t, x) (s_disp s') -> s_early s' = false ->
+     forall h0, nth_error (s_hist s') 0 = Some h0 -> h_time h0 + n_wa n <= t) ->
+  Glob n s'.
+Proof.
+  intros (G1 & G2 & G3 & G4) Hh Hn H0 He (SL & SP) Hd.
+  split; [|split; [|split]].
+  - rewrite Hh, Hn. exact G1.
+  - rewrite Hh. intros Ee k a h Ha Hk. destruct (SP _ _ Ha) as (a0 & Ha0 & Es). rewrite <- Es.
+    exact (G2 (He Ee) k a0 h Ha0 Hk).
+  - rewrite H0. intros Ee Pz a t0 Ha Ht0. destruct (SP _ _ Ha) as (a0 & Ha0 & Es). rewrite <- Es.
+    exact (G3 (He Ee) Pz a0 t0 Ha0 Ht0).
+  - intros Ee t x h0 Hin Hh0. exact (Hd t x Hin Ee h0 Hh0).
+Qed.
+
+Lemma glob_new_act n s s' l' a :
+  Glob n s -> s_hist s' = s_hist s -> s_now s' = s_now s -> s_t0 s' = s_t0 s ->
+  (s_early s' = false -> s_early s = false) ->
+  s_acts s' = l' ++ [a] -> start_pres (s_acts s) l' -> s_disp s' = s_disp s ->
+  (s_early s' = false -> forall k h, S k = length l' -> nth_error (s_hist s) k = Some h -> h_time h + n_dl n <= a_start a) ->
+  (s_early s' = false -> n_pause n = false -> l' = [] -> forall t0, s_t0 s = Some t0 -> t0 + n_wb n <= a_start a) ->
+  Glob n s'.
+Proof.
+  intros (G1 & G2 & G3 & G4) Hh Hn H0 He Ha (SL & SP) Hd N1 N2.
+  split; [|split; [|split]].
+  - rewrite Hh, Hn. exact G1.
+  - rewrite Hh, Ha. intros Ee k b h Hb Hk. apply nth_error_snoc in Hb. destruct Hb as [(Hb & Lt)|(Hl & ->)].
+    + destruct (SP _ _ Hb) as (a0 & Ha0 & Es). rewrite <- Es. exact (G2 (He Ee) k a0 h Ha0 Hk).
+    + exact (N1 Ee k h Hl Hk).
+  - rewrite H0, Ha. intros Ee Pz b t0 Hb Ht0. apply nth_error_snoc in Hb. destruct Hb as [(Hb & Lt)|(Hl & ->)].
+    + destruct (SP _ _ Hb) as (a0 & Ha0 & Es). rewrite <- Es. exact (G3 (He Ee) Pz a0 t0 Ha0 Ht0).
+    + apply (N2 Ee Pz); [|exact Ht0]. destruct l'; [reflexivity|discriminate].
+  - rewrite Hd, Hh. intros Ee. exact (G4 (He Ee)).
+Qed.
+
+Lemma nth_error_last_split {A} (l : list A) k x : nth_error l k = Some x -> S k = length l -> exists hs, l = hs ++ [x].
+Proof.
+  revert k. induction l as [|y t IH]; intros [|k] H L; cbn in *; try discriminate.
+  - inversion H; subst. destruct t; [exists []; reflexivity|discriminate].
+  - destruct (IH k H) as (hs & ->); [lia|]. exists (y :: hs). reflexivity.
+Qed.
+
+Lemma fire_none n j s : nth_error (s_jobs s) j = None -> fire_n n j s = s.
+Proof. intros H. unfold fire_n. rewrite H. reflexivity. Qed.
+
+Lemma early_mono (b e : bool) : (if b then true else e) = false -> e = false /\ b = false.
+Proof. destruct b; [discriminate|auto]. Qed.
+
+Definition popped (s : st) (jb : job) : st :=
+  set_early (if s_now s <? j_at jb then true else s_early s) (set_jobs [] s).
+
+Lemma fire_single n j s jb : s_jobs s = [jb] ->
+  fire_n n j s =
+  match j with
+  | O => match j_kind jb with
+         | JContinue => continue_task (popped s jb)
+         | JComplete x i => complete_n n x i (popped s jb)
+         | JTimeout => if is_completed (s_state (popped s jb)) then popped s jb else complete_n n ERROR ITimeout (popped s jb)
+         | JRefresh => popped s jb
+         end
+  | S _ => s
+  end.
+Proof.
+  intros H. unfold fire_n, popped. rewrite H. destruct j as [|j]; [|destruct j; reflexivity].
+  cbn [nth_error del_nth]. destruct (s_now s <? j_at jb); reflexivity.
+Qed.
+
+Lemma inv_fire n j s : Inv n s -> Inv n (fire_n n j s).
+Proof.
+  intros (G & p & P).
+  destruct p.
+  - rewrite fire_none; [split; [exact G|eexists; exact P]|]. cbn in P. destruct P as (_ & _ & -> & _). destruct j; reflexivity.
+  - (* the wait-before job *)
+    pose proof P as P0.
+    cbn [Ph] in P. destruct P as (A & B & C & D & E & F & Gw & H & I & t0 & Ht0 & Hj).
+    rewrite (fire_single _ _ _ _ Hj). destruct j as [|j]; [|split; [exact G|exists PWb; exact P0]].
+    cbn [j_kind]. unfold popped. cbn [j_at].
+    split.
+    + eapply (glob_new_act n s _ [] _ G); fields; try reflexivity.
+      * intros Ee. apply early_mono in Ee. tauto.
+      * rewrite B. reflexivity.
+      * rewrite B. split; [reflexivity|]. intros i a Ha. destruct i; discriminate.
+      * intros _ k h Hk. discriminate.
+      * intros Ee _ _ t0' Ht. apply early_mono in Ee. destruct Ee as (_ & Ee). rewrite Ht0 in Ht. inversion Ht; subst.
+        cbn [a_start]. lia.
+    + exists PRun. cbn [Ph]. fields. rewrite B, C. cbn [map app length].
+      repeat split; auto; try lia; try apply allgo_nil; try congruence.
+      * intros _ h0 H0. discriminate.
+      * exists [], (s_now s). repeat split; auto.
+  - rewrite fire_none; [split; [exact G|eexists; exact P]|]. cbn in P. destruct P as (_ & -> & _). destruct j; reflexivity.
+  - (* the wait-after job: the postponed completion *)
+    pose proof P as P0.
+    cbn [Ph] in P. destruct P as (A & B & C & D & E & F & h & a & i0 & Hh & Ha & Da & Hj & Hc & Hb).
+    rewrite (fire_single _ _ _ _ Hj). destruct j as [|j]; [|split; [exact G|exists PWa; exact P0]].
+    cbn [j_kind j_at].
+    pose proof G as (G1 & _). destruct (G1 h) as (Th & Rh); [rewrite Hh; left; reflexivity|].
+    set (s1 := popped s (mkJob (h_time h + n_wa n) (JComplete (h_res h) i0))).
+    assert (C1 : is_completed (s_state s1) = false) by (unfold s1, popped; fields; rewrite A; reflexivity).
+    assert (Rn : rnoN s1 = 0) by (unfold s1, popped, rnoN; fields; rewrite D; reflexivity).
+    assert (Hea : s_early s1 = false -> s_early s = false /\ h_time h + n_wa n <= s_now s).
+    { unfold s1, popped. fields. intros Ee. apply early_mono in Ee. cbn [j_at] in Ee. split; [tauto|].
+      destruct Ee as (_ & Ee). lia. }
+    destruct (complete_case n (h_res h) i0 s1 C1 Rh) as [(Wa & Ws & Eq)|[(Wc & Dc & i' & Eq)|(Wc & Dc & i' & Eq)]];
+      cbv zeta in Eq; rewrite Eq; clear Eq.
+    + exfalso. unfold s1, popped in Ws. fields. congruence.
+    + rewrite Rn in Dc. unfold s1, popped in Dc. fields. rewrite Hc, Hb in Dc.
+      pose proof (retry_decide_remain _ _ _ _ _ _ _ Dc) as Rem.
+      unfold s1, popped in *. clear s1. fields.
+      split.
+      * eapply (glob_keep n s _ G); fields; try reflexivity.
+        -- intros Ee. apply Hea, Ee.
+        -- apply start_pres_map. reflexivity.
+        -- rewrite B. intros t x [].
+      * exists PRt. cbn [Ph]. fields. rewrite Hh, Ha, B. cbn [map length app].
+        repeat split; auto; try (clear - Rem; lia); try congruence;
+          try (repeat constructor; exact Da);
+          try (rewrite Rn; reflexivity);
+          try (intros k h' Hk; apply nth_error_single in Hk; destruct Hk as (-> & ->); exact Dc);
+          try (intros Ee h0 H0; inversion H0; subst h0; apply Hea, Ee).
+        eexists. split; [reflexivity|]. intros hs h' Hs. destruct hs as [|? [|? ?]]; try discriminate.
+        inversion Hs; subst h'. clear - Th. lia.
+    + rewrite Rn in Dc. unfold s1, popped in Dc. fields. rewrite Hc, Hb in Dc.
+      unfold s1, popped in *. clear s1. unfold dispatch. fields. rewrite C. cbn [is_paused state_eqb]. fields. rewrite B.
+      split.
+      * eapply (glob_keep n s _ G); fields; try reflexivity.
+        -- intros Ee. apply Hea, Ee.
+        -- split; [reflexivity|]. intros i a' Hi. exists a'. auto.
+        -- intros t x [Hin|[]] Ee h0 H0. inversion Hin; subst t. rewrite Hh in H0. inversion H0; subst h0. apply Hea, Ee.
+      * exists PFin. cbn [Ph]. fields. rewrite Hh, Ha. cbn [length app].
+        repeat split; auto;
+          try (apply result_completed, eff_result, Rh);
+          try (repeat constructor; exact Da).
+        exists [], h, (s_now s). cbn [length app]. repeat split; auto; try lia. apply allgo_nil.
+  - (* the retry job: the next attempt starts *)
+    pose proof P as P0.
+    cbn [Ph] in P. destruct P as (A & B & C & D & E & F & Gr & H & I & J & K & at_ & Hj & Hat).
+    rewrite (fire_single _ _ _ _ Hj). destruct j as [|j]; [|split; [exact G|exists PRt; exact P0]].
+    cbn [j_kind]. unfold popped. cbn [j_at].
+    split.
+    + eapply (glob_new_act n s _ (map _ (s_acts s)) _ G); fields; try reflexivity.
+      * intros Ee. apply early_mono in Ee. tauto.
+      * apply start_pres_map. intros a. destruct (a_acc a && _); reflexivity.
+      * intros Ee k h Hk Hn. apply early_mono in Ee. destruct Ee as (_ & Ee).
+        rewrite map_length, D in Hk. destruct (nth_error_last_split _ _ _ Hn Hk) as (hs & Hs).
+        specialize (Hat hs h Hs). cbn [a_start]. lia.
+      * intros _ _ Hm. exfalso. destruct (s_acts s); [|discriminate]. destruct (s_hist s); [congruence|discriminate].
+    + exists PRun. cbn [Ph]. fields. rewrite B.
+      repeat split; auto; try congruence.
+      * rewrite Gr. destruct (s_hist s); [congruence|reflexivity].
+      * intros Ee. apply early_mono in Ee. apply K. tauto.
+      * eexists _, (s_now s). split; [reflexivity|]. rewrite map_length. split; [exact D|].
+        rewrite Forall_map. eapply Forall_impl; [|exact E]. intros a Ha. unfold done_act in *.
+        destruct (a_acc a && _); exact Ha.
+  - rewrite fire_none; [split; [exact G|eexists; exact P]|]. cbn in P. destruct P as (_ & -> & _). destruct j; reflexivity.
+Qed.
+
+Lemma step_inv n s e : n_tmo n = 0 -> Inv n s -> Inv n (step_n n s e).
+Proof.
+  intros T I. destruct e; cbn [step_n].
+  - apply inv_start; assumption.
+  - apply inv_resume; assumption.
+  - apply inv_act; assumption.
+  - apply inv_fire; assumption.
+  - apply inv_tick; assumption.
+Qed.
+
+Lemma run_inv_from n evs s : n_tmo n = 0 -> Inv n s -> Inv n (fold_left (step_n n) evs s).
+Proof. intros T. revert s. induction evs as [|e t IH]; intros s I; [exact I|]. cbn. apply IH, step_inv; assumption. Qed.
+
+Lemma run_inv n evs : n_tmo n = 0 -> Inv n (run_n n evs).
+Proof. intros T. apply run_inv_from; [exact T|apply init_inv]. Qed.
+
